@@ -527,10 +527,58 @@ func checkC01(c *core.Ctx) {
 			}
 		}
 	}
-	// (4) complexity families
-	maxDepth := 24
+	// (3b) staged sequences: the second graph is BUILT after the first one was back-propagated;
+	// the graphs share an UNTRACKED tensor u (a direct operand next to the tracked one) and nothing else
+	{
+		type bop struct {
+			op   ref.Op
+			swap bool
+		}
+		var bops []bop
+		for _, k := range []string{"Add", "Mul", "Div", "ElMax", "ElMin", "Dot", "Concat", "Patch"} {
+			bops = append(bops, bop{ref.Op{K: k}, false}, bop{ref.Op{K: k}, true})
+		}
+		for i, b1 := range bops {
+			for j, b2 := range bops {
+				for third := 0; third < 2; third++ {
+					if third == 1 && !c.Thorough() && (i+j)%4 != 0 {
+						continue
+					}
+					b1, b2, third := b1, b2, third
+					c.Case(fmt.Sprintf("staged/%s%v|%s%v/%d", b1.op, b1.swap, b2.op, b2.swap, third), true, func() core.Verdict {
+						g := func(salt uint64) *ref.T { return enum.Generic([]int{2}, salt, 0.4, 1.3, true) }
+						p := &ref.Program{Leaves: []*ref.T{g(331), g(332), g(333), g(334)}, Tracked: []bool{true, true, false, true}}
+						const u = 2
+						var roots []int
+						stage := func(x int, b bop) {
+							in := []int{x, u}
+							if b.swap {
+								in = []int{u, x}
+							}
+							p.Nodes = append(p.Nodes, ref.Node{Op: b.op, In: in})
+							p.Nodes = append(p.Nodes, ref.Node{Op: ref.Op{K: "Scale", F: 1.5}, In: []int{p.NTensors() - 1}})
+							roots = append(roots, p.NTensors()-1)
+						}
+						stage(0, b1)
+						stage(1, b2)
+						if third == 1 {
+							stage(3, b1)
+						}
+						v := stagedGradCase(p, roots, gradOpts{})
+						if !v.OK && !v.Skip {
+							v.Detail = describeProgram(p) + " :: " + v.Detail
+						}
+						return v
+					})
+				}
+			}
+		}
+	}
+	// (4) complexity families (a walk that follows every PATH instead of every edge needs 2^depth
+	// steps: from depth ~36 on that is longer than the per-case watchdog allows)
+	maxDepth := 44
 	if c.Thorough() {
-		maxDepth = 48
+		maxDepth = 64
 	}
 	for _, fam := range []string{"ladderAdd", "ladderMul", "diamond", "allPrevious"} {
 		for n := 1; n <= maxDepth; n++ {
